@@ -944,3 +944,154 @@ theorem fresh_wf (rs : List REv) (vec : Bool) :
 
 example : obs (drain (fresh [.data [0, 1, 97, 0], .data [0, 0, 1, 98], .eof])).1 = ([[97]], .error) := by
   rw [fresh_obs]; decide
+
+/-! ## consumer programs with interleaved polls (`runProg`, what the driver runs) -/
+
+/-- every message in a trace, wherever it occurs -/
+def msgsOf : List Item → List Bytes
+  | [] => []
+  | .msg m :: t => m :: msgsOf t
+  | _ :: t => msgsOf t
+
+theorem sockRead_idle {s : List REv} {n : Nat} {s' : List REv} (h : sockRead s n = (.idle, s')) : s' = [] := by
+  fun_induction sockRead s n <;> simp_all
+
+theorem readStep_idle {st : RdSt} {s : List REv} (h : (readStep st s).2.2 = .idle) : (readStep st s).2.1 = [] := by
+  unfold readStep at h ⊢
+  split
+  · rename_i heq; simp [heq] at h
+  · rename_i s' heq; simpa using sockRead_idle heq
+  · rename_i heq; simp [heq] at h
+  · rename_i bs s' heq
+    simp only [heq] at h
+    split at h
+    · cases st with
+      | lenBytes got => cases got <;> simp [RdSt.closed] at h
+      | datBytes l g => simp [RdSt.closed] at h
+    · cases st <;> simp only [RdSt.absorb] at h <;> split at h <;> simp at h
+
+theorem readLoop_idle (st : RdSt) (s : List REv) (h : (readLoop st s).2.2 = .idle) : (readLoop st s).2.1 = [] := by
+  fun_induction readLoop st s with
+  | case1 st s st' s' hs ih => exact ih h
+  | case2 st s hne => exact readStep_idle h
+
+/-- one `poll_next`, seen from the byte-wise reader: a message is the reader's next message, a
+`Pending` (woken or not) changes nothing -/
+theorem pollNext_step (c : Conn) (hwf : c.rd.WF) :
+    (pollNext c).1.rd.WF ∧
+      match (pollNext c).2 with
+      | .msg m =>
+        run c.rd (bytesOf c.rs) (endingOf c.rs) =
+          (m :: (run (pollNext c).1.rd (bytesOf (pollNext c).1.rs) (endingOf (pollNext c).1.rs)).1,
+            (run (pollNext c).1.rd (bytesOf (pollNext c).1.rs) (endingOf (pollNext c).1.rs)).2)
+      | .pending =>
+        run c.rd (bytesOf c.rs) (endingOf c.rs) =
+          run (pollNext c).1.rd (bytesOf (pollNext c).1.rs) (endingOf (pollNext c).1.rs)
+      | .idle =>
+        run c.rd (bytesOf c.rs) (endingOf c.rs) =
+          run (pollNext c).1.rd (bytesOf (pollNext c).1.rs) (endingOf (pollNext c).1.rs)
+      | _ => True := by
+  rcases pollNext_cases c with ⟨w', hw, hp⟩ | ⟨w', o, it, hw, ho, hit, _, hp⟩
+  · rw [hp]
+    have hrl := readLoop_run hwf c.rs
+    have hidle := readLoop_idle c.rd c.rs
+    refine ⟨hrl.1, ?_⟩
+    simp only
+    generalize (readLoop c.rd c.rs).2.2 = o at hrl hidle
+    cases o <;> simp only [RdOut.toItem] <;> try exact hrl.2
+    rw [hrl.2, hidle rfl]
+    simp [after, bytesOf, endingOf, run, atEnd]
+  · rw [hp]
+    refine ⟨hwf, ?_⟩
+    rcases hit with rfl | rfl | rfl <;> simp
+
+/-- **Safety for consumer programs**: whatever the consumer does (send at any time, poll at any
+time, keep polling after a blocked poll), the messages it is handed are a prefix of what the
+byte-wise reader yields for the bytes of the script. -/
+theorem drain_msgs (c : Conn) (hwf : c.rd.WF) :
+    msgsOf (drain c).1 <+: (run c.rd (bytesOf c.rs) (endingOf c.rs)).1 := by
+  fun_induction drain c with
+  | case1 c c' m h r ih =>
+    have hs := pollNext_step c hwf
+    rw [h] at hs
+    simp only at hs
+    rw [hs.2]
+    simpa [msgsOf] using ih hs.1
+  | case2 c c' h r ih =>
+    have hs := pollNext_step c hwf
+    rw [h] at hs
+    simp only at hs
+    rw [hs.2]
+    simpa [msgsOf] using ih hs.1
+  | case3 c c' it hnm hnp h =>
+    cases it <;> simp_all [msgsOf]
+
+theorem runProg_msgs (prog : List Act) : ∀ (c : Conn), c.rd.WF →
+    msgsOf (runProg c prog).1 <+: (run c.rd (bytesOf c.rs) (endingOf c.rs)).1 := by
+  induction prog with
+  | nil => intro c hwf; exact drain_msgs c hwf
+  | cons a as ih =>
+    intro c hwf
+    cases a with
+    | send m ok => exact ih (c.enqueue m ok) hwf
+    | poll =>
+      have hs := pollNext_step c hwf
+      simp only [runProg]
+      split
+      · rename_i ht
+        generalize (pollNext c).2 = it at ht
+        cases it <;> simp_all [msgsOf, Item.terminal]
+      · rename_i ht
+        have ih' := ih (pollNext c).1 hs.1
+        generalize hit : (pollNext c).2 = it at ht hs
+        cases it with
+        | msg m => simp only at hs; rw [hs.2]; simpa [msgsOf] using ih'
+        | pending => simp only at hs; rw [hs.2]; simpa [msgsOf] using ih'
+        | idle => simp only at hs; rw [hs.2]; simpa [msgsOf] using ih'
+        | endClean => simp [Item.terminal] at ht
+        | err => simp [Item.terminal] at ht
+
+/-- … in particular for framed input: any program, any chunking, any close position -/
+theorem runProg_no_truncated_merged_duplicated (prog : List Act) (c : Conn) (hrd : c.rd = .lenBytes [])
+    (ms : List Bytes) (hms : ∀ m ∈ ms, Framable m) (hb : bytesOf c.rs <+: frames ms) :
+    msgsOf (runProg c prog).1 <+: ms := by
+  have h := runProg_msgs prog c (by rw [hrd]; simp [RdSt.WF])
+  rw [hrd, List.prefix_iff_eq_take.mp hb] at h
+  exact h.trans (run_prefix ms hms _ _)
+
+/-! ## the send loop finishes unless the socket blocks for ever or fails -/
+
+theorem drain_ne_nil (c : Conn) : (drain c).1 ≠ [] := by
+  fun_induction drain c <;> simp
+
+/-- A drained run ends either with nothing half-sent — and then (`write_bytes_drained`) every queued
+frame is on the wire in full — or its last item is `idle` (a socket half blocks for ever) or an error. -/
+theorem write_completes_unless_blocked_or_failed (c : Conn) :
+    (drain c).2.w.send = none ∨ (drain c).1.getLast? = some .idle ∨ (drain c).1.getLast? = some .err := by
+  fun_induction drain c with
+  | case1 c c' m h r ih =>
+    have hne := drain_ne_nil c'
+    rcases hl : (drain c').1 with _ | ⟨x, t⟩
+    · exact absurd hl hne
+    · simpa [hl, List.getLast?_cons_cons] using ih
+  | case2 c c' h r ih =>
+    have hne := drain_ne_nil c'
+    rcases hl : (drain c').1 with _ | ⟨x, t⟩
+    · exact absurd hl hne
+    · simpa [hl, List.getLast?_cons_cons] using ih
+  | case3 c c' it hnm hnp h =>
+    rcases pollNext_cases c with ⟨w', hw, hp⟩ | ⟨w', o, it', hw, ho, hit, _, hp⟩
+    · rw [h] at hp
+      simp only [Prod.mk.injEq] at hp
+      obtain ⟨rfl, _⟩ := hp
+      left
+      have := writeLoop_done c.vec c.w (by rw [hw])
+      rw [hw] at this
+      exact this.2
+    · rw [h] at hp
+      simp only [Prod.mk.injEq] at hp
+      obtain ⟨rfl, rfl⟩ := hp
+      rcases hit with rfl | rfl | rfl
+      · exact absurd rfl hnp
+      · right; left; rfl
+      · right; right; rfl
